@@ -22,6 +22,7 @@ Sigma == {
   Sym("colon", "3a", "plain"), Sym("comma", "2c", "plain"), Sym("apos", "27", "plain"),
   Sym("quote", "22", "quote"), Sym("bslash", "5c", "bslash"),
   Sym("nul", "00", "ctl"), Sym("lf", "0a", "ctl"), Sym("cr", "0d", "ctl"), Sym("tab", "09", "ctl"), Sym("soh", "01", "ctl"), Sym("esc", "1b", "ctl"),
+  Sym("bs", "08", "ctl"), Sym("vt", "0b", "ctl"), Sym("ff", "0c", "ctl"), Sym("so", "0e", "ctl"), Sym("dle", "10", "ctl"), Sym("us", "1f", "ctl"),
   Sym("del", "7f", "plain"),
   Sym("e-acute", "c3a9", "plain"), Sym("check", "e29c93", "plain"), Sym("smile", "f09f9880", "plain"), Sym("u2028", "e280a8", "plain"),
   \* multi-character symbols: JSON fragments and escape look-alikes
@@ -30,6 +31,7 @@ Sigma == {
   Sym("winpath", "433a5c6e6577", "multi"),                          \* C:\new
   Sym("num", "3432", "multi"), Sym("true", "74727565", "multi"), Sym("null", "6e756c6c", "multi"),
   Sym("cdata-end", "5d5d3e", "multi"), Sym("close-tag", "3c2f7363726970743e", "multi"),      \* ]]>  </script>
+  Sym("allctl", "0102030405060708090a0b0c0d0e0f101112131415161718191a1b1c1d1e1f", "multi"),   \* every C0 control once
   Sym("arr", "5b312c325d", "multi"), Sym("langmap", "7b22656e223a2278227d", "multi"), Sym("quoted", "2268692022", "multi") }
 BadUTF8 == Sym("badutf8", "ff", "bad")
 
